@@ -221,7 +221,7 @@ func genLokiDB(r *h.Rng, c qctx, v vocab) *lokiDB {
 	return db
 }
 
-func joinOr(xs []string, sep string) string {
+func joinOrDash(xs []string, sep string) string {
 	if len(xs) == 0 {
 		return "-"
 	}
@@ -250,7 +250,7 @@ func (db *lokiDB) oracleTables(v vocab) string {
 		for _, p := range pairs {
 			kv = append(kv, hx(p[0])+"="+hx(p[1]))
 		}
-		js = append(js, hx(doc)+":"+joinOr(kv, ","))
+		js = append(js, hx(doc)+":"+joinOrDash(kv, ","))
 	}
 	for s := range db.values {
 		f, err := strconv.ParseFloat(s, 64)
@@ -274,7 +274,7 @@ func (db *lokiDB) oracleTables(v vocab) string {
 	for _, l := range [][]string{re, js, num, cmp, low} {
 		sort.Strings(l)
 	}
-	return strings.Join([]string{joinOr(re, ";"), joinOr(js, ";"), joinOr(num, ";"), joinOr(cmp, ";"), joinOr(low, ";")}, " ")
+	return strings.Join([]string{joinOrDash(re, ";"), joinOrDash(js, ";"), joinOrDash(num, ";"), joinOrDash(cmp, ";"), joinOrDash(low, ";")}, " ")
 }
 
 // c07Sem: the statement the real planner BUILT (reflection dump) is evaluated by Sql.evalSel on small
@@ -312,7 +312,7 @@ func c07Sem(r *h.Result, rng *h.Rng, n int) error {
 		dump := hx(sqldump.Dump(sel))
 		v := collectVocab(script)
 		db := genLokiDB(rng, c, v)
-		ops = append(ops, fmt.Sprintf("c07sem %s %s %s %s %s %s %s", c.ser(), ser, joinOr(db.gin, ";"), joinOr(db.ts, ";"), joinOr(db.smp, ";"), db.oracleTables(v), dump))
+		ops = append(ops, fmt.Sprintf("c07sem %s %s %s %s %s %s %s", c.ser(), ser, joinOrDash(db.gin, ";"), joinOrDash(db.ts, ";"), joinOrDash(db.smp, ";"), db.oracleTables(v), dump))
 		renderOps = append(renderOps, "sqlrender "+dump)
 		implText = append(implText, hx(text))
 		cases = append(cases, map[string]any{"query": query, "ctx": c, "gin": db.gin, "ts": db.ts, "samples": db.smp, "sql": text})
